@@ -35,6 +35,7 @@ import CookModel.Lemmas.DiagPlaceName
 import CookModel.Lemmas.DiagPlaceDocMore
 import CookModel.Lemmas.DiagPlaceInter
 import CookModel.Lemmas.DiagPlaceDocName
+import CookModel.Lemmas.DiagPlaceSingle
 /-
   C07  Diagnostics are sound, complete and placed on the offending construct.
 
@@ -4452,5 +4453,76 @@ example (T tpre tB tpost : List Tok) (hT : T = tpre ++ (tB ++ tpost))
     (tk .word ['x']) (by decide) (by decide)
 example : (parseRecipe (α := Rat) C07_vEnvI ">> source: grandma\n\nUse @&(x)y{} now\n".toList).diags.toList =
     [⟨.error, .parse, "inter-ref-invalid", [⟨27, 28⟩]⟩] := by decide +kernel
+
+/-! ### `invalid-single-word-name` as a placement piece, step and document level (wave 10) -/
+
+/-- **A marker that starts no component, wherever it stands** (`@!x`, `#(`, `~,`, `@ x`; completes
+    `C07_invalid_single_word_name_then_text` by running the text branch).  `tm` is `@` / `#` / `~`; the tokens `tl`
+    after it hold no `{` and no marker; a marker or the end of the block follows them; the token after `tm` (if any)
+    is neither a word / number token nor a modifier character.  From every state at that position ONE iteration of
+    the step loop pushes EXACTLY: the warning `invalid-single-word-name` (warning, parse; labelled with the position
+    right after the marker — inside the construct) iff a token other than whitespace follows the marker; then ONE
+    text event made of the marker and `tl` (everything up to the next marker).  Every extension set. -/
+theorem C07_planted_single_word (T A rest : List Tok) (cs : CharSpec) (e : Ext) (hw : WF T) (tm : Tok)
+    (tl : List Tok) (hT : T = A ++ ((tm :: tl) ++ rest))
+    (hk : tm.kind = .at ∨ tm.kind = .hash ∨ tm.kind = .tilde)
+    (hl : ∀ t ∈ tl, (t.kind == .openBrace || isMarker t.kind) = false)
+    (hrest : ∀ t, rest.head? = some t → isMarker t.kind = true)
+    (h0 : ∀ t, (tl ++ rest).head? = some t → isModStart t.kind = false ∧ isShortK t.kind = false)
+    (hvis : (tm :: tl).flatMap vis ≠ []) :
+    PlPieceAt (α := α) T cs e A ⟨tm :: tl, fun evs =>
+      evs = c07s_swEvs T A (tl ++ rest) ++ [.text (buildText (offAt T A.length) (tm :: tl))]⟩ :=
+  c07s_single_word_piece T A rest cs e tm tl hT hw hk hl hrest h0 hvis
+
+/-- **Instance: a marker that starts no component, planted in a document.**  The construct is given by SPECIFICATION
+    tokens `tmS :: tlS` (conditions as in `C07_planted_single_word`, on them and on the specified tokens after the
+    construct).  On every actual block spelling the step the construct is a piece: EXACTLY the warning
+    `invalid-single-word-name` at the byte offset after the actual marker iff the specified token after the marker is
+    not whitespace, then one text event made of the construct's actual tokens.  This is the hypothesis `hB` of
+    `C07_planted_document`; no error event, so the document HAS output. -/
+theorem C07_planted_document_single_word (env : Env) (pre post : List SegX) (tmS : Tok) (tlS : List Tok)
+    (hk : tmS.kind = .at ∨ tmS.kind = .hash ∨ tmS.kind = .tilde)
+    (hl : ∀ t ∈ tlS, (t.kind == .openBrace || isMarker t.kind) = false)
+    (hrest : ∀ t, (post.flatMap SegX.spell).head? = some t → isMarker t.kind = true)
+    (h0 : ∀ t, (tlS ++ post.flatMap SegX.spell).head? = some t → isModStart t.kind = false ∧ isShortK t.kind = false)
+    (hvis : (tmS :: tlS).flatMap vis ≠ []) :
+    ∀ (T tpre tB tpost : List Tok), T = tpre ++ (tB ++ tpost) → Spells tpre (pre.flatMap SegX.spell) →
+      Spells tB (tmS :: tlS) → Spells tpost (post.flatMap SegX.spell) → RunAt (baseOff T) T →
+      PlPieceAt (α := α) T env.cs env.ext tpre ⟨tB, fun evs =>
+        evs = c07s_swEvs T tpre (tlS ++ post.flatMap SegX.spell) ++
+          [.text (buildText (offAt T tpre.length) tB)]⟩ :=
+  fun T tpre tB tpost hT _ hsB hpost hrun =>
+    c07s_single_word_pieceAt env.cs env.ext tmS tlS _ hk hl hrest h0 hvis T tpre tB tpost hT hsB hpost hrun
+
+/-! non-vacuity: the document `>> source: grandma` / blank / `Use @!x now` (every extension off; the construct is
+    `@!x now`, nothing after it): all hypotheses of `C07_planted_document` decided, `hB` from the instance; the
+    evaluated report has exactly the parse-stage warning `invalid-single-word-name` ⟨25,25⟩ and there is output. -/
+def C07_sB : List Tok := [tk .at ['@'], tk .punct ['!'], tk .word ['x'], tk .ws [' '], tk .word "now".toList]
+def C07_sSpec : List Tok → List Tok → List Tok → List (Ev Rat) → Prop :=
+  fun T tpre tB evs => evs = c07s_swEvs T tpre ([tk .punct ['!'], tk .word ['x'], tk .ws [' '], tk .word "now".toList]
+    ++ ([] : List SegX).flatMap SegX.spell) ++ [.text (buildText (offAt T tpre.length) tB)]
+def C07_sDoc : List (PlBlock Rat × List Tok) :=
+  plantedDoc toyCharSpec C07_dDocA [] C07_plPre' [] C07_sB [C01_nl] C07_sSpec
+example : render ([] ++ plDocSpec C07_sDoc) = ">> source: grandma\n\nUse @!x now\n".toList := by decide
+example : ∃ (T tpre tB tpost : List Tok) (evsB : List (Ev Rat)),
+    T <:+: lex toyCharSpec (render ([] ++ plDocSpec C07_sDoc)) ∧ T = tpre ++ (tB ++ tpost) ∧
+    Spells tB C07_sB ∧ C07_sSpec T tpre tB evsB ∧
+    (parseRecipe (α := Rat) C07_coreEnv (render ([] ++ plDocSpec C07_sDoc))).diags.toList.filter
+      (fun d => d.stage == .parse) = evDiags evsB ∧
+    (parseRecipe (α := Rat) C07_coreEnv (render ([] ++ plDocSpec C07_sDoc))).output.isSome = true := by
+  obtain ⟨T, tpre, tB, tpost, evsB, h1, h2, -, h4, -, h6, h7, -, h9, -⟩ :=
+    C07_planted_document (α := Rat) C07_coreEnv [] C07_dDocA [] C07_plPre' [] C07_sB [C01_nl] C07_sSpec
+      (by decide) (by decide) (by intro d h; cases h) (by decide)
+      (C07_planted_document_single_word C07_coreEnv C07_plPre' [] (tk .at ['@'])
+        [tk .punct ['!'], tk .word ['x'], tk .ws [' '], tk .word "now".toList] (Or.inl rfl) (by decide)
+        (by intro t h; cases h) (by intro t h; simp at h; subst h; decide) (by decide))
+      (by decide) (by decide) (by decide)
+  refine ⟨T, tpre, tB, tpost, evsB, h1, h2, h4, h6, h7, h9 ?_⟩
+  intro d hd
+  rw [h6] at hd
+  simp [c07s_swEvs] at hd
+example : ((parseRecipe (α := Rat) C07_coreEnv (render ([] ++ plDocSpec C07_sDoc))).diags.toList.filter
+      (fun d => d.stage == .parse)) = [⟨.warning, .parse, "invalid-single-word-name", [⟨25, 25⟩]⟩] := by
+  decide +kernel
 
 end Cook
